@@ -373,7 +373,8 @@ def check (op : OpObs) (pre post : Views) (seen : Array Bool) : List Fail :=
       if u.cap != cap * ch then
         mk ["C15"] "put-mismatch-panics" s!"cap={u.cap} pool={cap * ch} outcome={outcome}" (outcome == "panic diffCapacity") ++
         frameFails ["C15"] "put-mismatch-unchanged" pre post seen []
-      else mk ["C10"] "put-no-panic" s!"outcome={outcome}" (outcome == "ok")
+      else mk (if ch == 0 || cap == 0 then ["C10", "C20"] else ["C10"]) "put-no-panic"
+        s!"pool=ch{ch}/K{cap} buffer-cap={u.cap} outcome={outcome}" (outcome == "ok")
 
 end SpecMem
 end Sig
